@@ -130,6 +130,50 @@ func (s *c16bBackend) SaveDevicesBillingStat(srv grpc.ClientStreamingServer[back
 	return srv.SendAndClose(&emptypb.Empty{})
 }
 
+// c16bListener hands the connections it accepts to the gRPC server, or -- while stalled -- keeps them
+// open without a word: a backend host that is up while its service is not (restarting, overloaded).  Going
+// into the stall also drops the connections made so far, so that the client has to come back.
+type c16bListener struct {
+	net.Listener
+	mu      sync.Mutex
+	stalled bool
+	live    []net.Conn
+	parked  []net.Conn
+}
+
+func (l *c16bListener) Accept() (net.Conn, error) {
+	for {
+		c, err := l.Listener.Accept()
+		if err != nil {
+			return nil, err
+		}
+		l.mu.Lock()
+		if l.stalled {
+			l.parked = append(l.parked, c)
+			l.mu.Unlock()
+			continue
+		}
+		l.live = append(l.live, c)
+		l.mu.Unlock()
+		return c, nil
+	}
+}
+
+func (l *c16bListener) stall(on bool) {
+	l.mu.Lock()
+	defer l.mu.Unlock()
+	l.stalled = on
+	drop := l.parked
+	l.parked = nil
+	if on {
+		drop = append(drop, l.live...)
+		l.live = nil
+	}
+	for _, c := range drop {
+		_ = c.Close()
+	}
+}
+
 type c16bEvent struct {
 	Ev        string         `json:"ev"`
 	D         string         `json:"d"`
@@ -148,10 +192,11 @@ func TestVerifC16Uploader(t *testing.T) {
 	nhist := vhEnvInt("VERIF_NHIST", 40)
 	for beh := 0; beh < nhist; beh++ {
 		be := &c16bBackend{committed: map[string]int{}, meta: map[string]int{}, mode: "ok"}
-		l, err := net.Listen("tcp", "127.0.0.1:0")
+		tl, err := net.Listen("tcp", "127.0.0.1:0")
 		if err != nil {
 			t.Fatal(err)
 		}
+		l := &c16bListener{Listener: tl}
 		gs := grpc.NewServer(grpc.ConnectionTimeout(time.Second), grpc.Creds(insecure.NewCredentials()))
 		backendpb.RegisterDNSServiceServer(gs, be)
 		go func() { _ = gs.Serve(l) }()
@@ -181,6 +226,7 @@ func TestVerifC16Uploader(t *testing.T) {
 		out.Emit(c16bEvent{Ev: "Reset", Beh: beh, Delivered: d0, DelivMeta: m0})
 		clock := 0
 		pendingAny := false
+		_ = pendingAny
 		steps := 15 + rng.Intn(30)
 		bulk := vhEnvInt("VERIF_BULK", 30000)
 		refresh := func(mode string) {
@@ -198,8 +244,11 @@ func TestVerifC16Uploader(t *testing.T) {
 			be.mu.Unlock()
 			before, _ := snapshot()
 			tmo := 10 * time.Second
-			if mode == "deadline" {
+			if mode == "deadline" || mode == "stall" {
 				tmo = 300 * time.Millisecond
+			}
+			if mode == "stall" {
+				l.stall(true)
 			}
 			ctx, cancel := context.WithTimeout(context.Background(), tmo)
 			var rerr error
@@ -213,6 +262,9 @@ func TestVerifC16Uploader(t *testing.T) {
 				rerr = r.Refresh(ctx)
 			}()
 			cancel()
+			if mode == "stall" {
+				l.stall(false)
+			}
 			be.mu.Lock()
 			last := be.last
 			be.mu.Unlock()
@@ -220,7 +272,8 @@ func TestVerifC16Uploader(t *testing.T) {
 			out.Emit(c16bEvent{Ev: "RefreshReset", R: "r1", Beh: beh, Delivered: before, DelivMeta: nil, Mode: mode})
 			ev := "UploadOK"
 			// an empty batch is not sent at all: nothing to lose, counts as delivered
-			if last == "rejected" || (last == "none" && pendingAny && false) {
+			// ... and a call that failed without ever reaching the backend's handler delivered nothing either
+			if last == "rejected" || (last == "none" && rerr != nil) {
 				ev = "UploadFail"
 			}
 			e := rerr != nil
@@ -238,7 +291,7 @@ func TestVerifC16Uploader(t *testing.T) {
 				dd, _ := snapshot()
 				out.Emit(c16bEvent{Ev: "Record", D: d, Beh: beh, Delivered: dd})
 			} else {
-				refresh([]string{"ok", "ok", "open", "mid", "final", "ok", "earlyok", "deadline", "auth", "badreq", "ratelimit", "quota", "ok"}[rng.Intn(13)])
+				refresh([]string{"ok", "ok", "open", "mid", "final", "ok", "earlyok", "deadline", "auth", "badreq", "ratelimit", "quota", "ok", "stall"}[rng.Intn(14)])
 			}
 		}
 		refresh("ok")
